@@ -227,6 +227,37 @@ pub fn programs() -> Vec<(&'static str, String)> {
             extra.push(("slot grid: many columns that are only bound", format!("{PRE}pub fn main(x: u8) -> u8 {{ {body} }}\n")));
         }
     }
+    // ---- repeat literals whose count is a const, of every type a const can have, in uses that never
+    //      meet a written array type (only a usize const is a count; whatever is accepted must compile)
+    for (kty, kval) in [("usize", "3usize"), ("u8", "3u8"), ("u16", "3u16"), ("u32", "3u32"), ("u64", "3u64"), ("i8", "3i8"), ("i64", "3i64"), ("bool", "true")] {
+        for body in [
+            "let a = [x; K]; a[0]",
+            "let a = [x; K]; a[0] + a[2]",
+            "let mut n = 0u8; for v in [x; K] { n = n + v; } n",
+            "let a = [x; K]; let b = [x; K]; if a == b { 1u8 } else { 0u8 }",
+            "let a = [(x, true); K]; let (p, q) = a[1]; p",
+            "let a = [[x; K]; K]; a[1][1]",
+            "let mut a = [x; K]; a[1] = 0u8; a[0] + a[1]",
+            "[x; K][0]",
+            "match [x; K] { [a, b, c] => a + b + c }",
+        ] {
+            extra.push(("slot grid: repeat literal counted by a const", format!("const K: {kty} = {kval};\npub fn main(x: u8) -> u8 {{ {body} }}\n")));
+        }
+    }
+    // ---- a tuple scrutinee with a component that is a constant, arms whose literal at that position
+    //      does not match it and that bind names at later positions
+    for scrut in ["(2u8, x)", "(2u8, x, true)", "(false, (x, 7u16))", "((1u8, 2u8), x)"] {
+        for arms in [
+            "(3u8, y) => y + 1u8, (2u8, z) => z + 2u8, (_, w) => w",
+            "(0u8..=1u8, y) => y + 1u8, (k, z) => z + k",
+            "(3u8, y, _) => y + 1u8, (_, z, true) => z + 2u8, (_, w, false) => w",
+            "(true, (y, _)) => y + 1u8, (false, (z, q)) => z + 2u8",
+            "((1u8, 3u8), y) => y + 1u8, ((_, b), z) => z + b",
+            "(9u8, y) => { let t = y; t }, (_, z) => z",
+        ] {
+            extra.push(("slot grid: constant component in a tuple scrutinee", format!("pub fn main(x: u8) -> u8 {{ match {scrut} {{ {arms} }} }}\n")));
+        }
+    }
     out.extend(extra);
     out
 }
